@@ -108,7 +108,7 @@ impl Engine {
             format!("State rewards/fees = {}/{} model {rw}/{fees}", st.total_reward_amount, st.total_fees)
         });
         let nominee = self.m.nominee.clone().unwrap_or_default();
-        self.chk(&["C12"], st.pending_owner == nominee, || format!("State.pending_owner={} model {nominee}", st.pending_owner));
+        self.chk(&["C08", "C12"], st.pending_owner == nominee, || format!("State.pending_owner={} model {nominee}", st.pending_owner));
         let want_rate = if l == 0 { Some(0) } else if n == 0 { None } else { ratio_18(l, n) };
         if let Some(w) = want_rate {
             self.chk(&["C15"], st.rate.atomics().u128() == w, || format!("State.rate={} but purchase rate L/N of N={n} L={l} is {w}e-18", st.rate));
